@@ -215,6 +215,13 @@ func (c *c15Ctx) validate(n *provenance.ProofNode, ancestors map[string]bool, re
 		if !c.store.Contains(n.Fact) {
 			return "", "transform node for a fact that is not in the store: " + n.Fact.String()
 		}
+		// the rule a transform node names is a rule of the program (as written, or as the rewriter leaves it), with its transform
+		if !c.ruleText[n.Rule.String()] {
+			return "", fmt.Sprintf("the transform node for %v names the rule %q, which is not a rule of the program", n.Fact, n.Rule.String())
+		}
+		if n.Rule.Transform == nil {
+			return "", fmt.Sprintf("the transform node for %v names a rule without a transform: %q", n.Fact, n.Rule.String())
+		}
 		if n.Kind == provenance.KindDoAggregate && !n.Partial {
 			if prob := c.checkDoAggregate(n); prob != "" {
 				return "", prob
